@@ -431,8 +431,9 @@ class FnExecutor(Executor):
                 for q, c in CONTRACTS.items():
                     if q.endswith('.' + m):
                         out.append(c)
-            elif isinstance(n.func, ast.Name) and n.func.id in CONTRACTS:
-                out.append(CONTRACTS[n.func.id])
+            elif isinstance(n.func, ast.Name):
+                if n.func.id in CONTRACTS:
+                    out.append(CONTRACTS[n.func.id])
             else:
                 # computed callee: every function-typed contract
                 for q, c in CONTRACTS.items():
